@@ -3,7 +3,7 @@ import hashlib as _hl
 _c25_dev_hash = _hl.sha256(open(_os.path.join(_os.path.dirname(_f), 'c24_dev.hpp'), 'rb').read()).hexdigest()[:16]
 
 target('c25_advrx', 'engines/ll/c25_advrx.cpp', extra_src=LL_SRC, cxxflags=['-gline-tables-only', '-DC24_DEV_HASH=0x' + _c25_dev_hash],
-       quick=dict(cases=40000, size=120), thorough=dict(cases=400000, size=160))
+       quick=dict(cases=120000, size=120), thorough=dict(cases=400000, size=160))
 prop('C25', ['c25_advrx'], 'll',
      rule='rapidcheck generates one of 6 link layer configurations (default; undirected / directed / scannable single type; four types; '
           'directed + non connectable; white_list<1..4> or none; two PDU layouts), the own address (option default / public / random set '
